@@ -36,7 +36,7 @@ structure GqrOk (g : GQR) : Prop where
   queryRcode : ULt 16 g.queryRcode
   classtype : ∀ p, g.classtype = some p → p.1 < 2 ^ 16 ∧ p.2 < 2 ^ 16
   qdcount : ULt 16 g.qdcount
-  ancount : ULt 32 g.ancount
+  ancount : ULt 16 g.ancount          -- `GenericQueryResponse::query_ancount` is a `uint16_t` (the table entry's is 32 bits wide)
   nscount : ULt 16 g.nscount
   arcount : ULt 16 g.arcount
   ednsVersion : ULt 8 g.ednsVersion
@@ -245,7 +245,7 @@ theorem tv_addSection {b : Blk} (h : TV b) (c : Bool) (o : Option (List GRR)) (a
 theorem sigV_mkSig (hh : Hints) (g : GQR) (hg : GqrOk g) (a c o : Option Nat) : SigV (mkSig hh g a c o) := by
   unfold mkSig
   exact ⟨ult_keep hg.serverPort, ult_keep hg.transportFlags, ult_keep hg.qrType, ult_keep hg.sigFlags, ult_keep hg.opcode,
-    ult_keep hg.dnsFlags, ult_keep hg.queryRcode, ult_keep hg.qdcount, ult_keep hg.ancount, ult_keep hg.nscount, ult_keep hg.arcount,
+    ult_keep hg.dnsFlags, ult_keep hg.queryRcode, ult_keep hg.qdcount, ult_keep (fun n hn => Nat.lt_of_lt_of_le (hg.ancount n hn) (by decide)), ult_keep hg.nscount, ult_keep hg.arcount,
     ult_keep hg.ednsVersion, ult_keep hg.udpSize, ult_keep hg.responseRcode⟩
 
 theorem tv_buildSig (hh : Hints) (g : GQR) (hg : GqrOk g) {b : Blk} (h : TV b) : TV (buildSig hh g b).1 := by
